@@ -256,6 +256,14 @@ var words = []string{"a", "b", "c", "apple", "Banana", "cherry", "x y", "Ã©", "æ
 var keyWords = []string{"a", "b", "c", "d", "e", "f", "g", "h", "i", "j", "k", "l", "name", "title", "n"}
 
 func genScalar(r *Rng) *LV {
+	v := genScalar1(r)
+	if noAddr && v.R == "ptr" {
+		v.R = "" // nested pointers print as addresses when their container is printed whole
+	}
+	return v
+}
+
+func genScalar1(r *Rng) *LV {
 	switch r.weighted([]int{4, 4, 2, 1, 1, 1}) {
 	case 0:
 		return &LV{T: "str", S: pick(r, words), R: pick(r, []string{"", "", "", "ptr"})}
@@ -421,7 +429,28 @@ func GenEnv(r *Rng, mapLo, mapHi int) *Env {
 	if r.Chance(0.3) {
 		add("x", genScalar(r)) // otherwise undefined: exercises nil / strict mode
 	}
+	if noAddr {
+		for _, v := range e.Vals {
+			for _, c := range v.A {
+				stripPtr(c)
+			}
+		}
+	}
 	return e
+}
+
+// stripPtr removes pointer representations below the top level of a binding:
+// fmt prints a nested pointer as its address when the container is printed whole.
+func stripPtr(v *LV) {
+	if v.R == "ptr" || v.R == "ptrs" {
+		v.R = ""
+	}
+	if v.T == "struct" {
+		v.B = false
+	}
+	for _, c := range v.A {
+		stripPtr(c)
+	}
 }
 
 // ---- canonical deep serialisation (snapshot) ----
@@ -506,8 +535,8 @@ func snap(sb *strings.Builder, v reflect.Value, seen map[uintptr]int, depth int)
 		}
 		sb.WriteByte('}')
 	case reflect.Struct:
-		if t == reflect.TypeOf(time.Time{}) {
-			tm := reflect.NewAt(t, unsafePtr(v)).Elem().Interface().(time.Time)
+		if t == reflect.TypeOf(time.Time{}) && v.CanInterface() {
+			tm := v.Interface().(time.Time)
 			fmt.Fprintf(sb, "time(%s)", tm.UTC().Format(time.RFC3339Nano))
 			return
 		}
